@@ -205,6 +205,11 @@ def run(tier, seed):
                 rep.traces += 1
                 for ln, clause in viol[:2]:
                     o = byrid[rid]
+                    fid = match_known(known, clause, o['cfg'], o['serial'], o['mpi'])
+                    if fid:
+                        n, t = rep.known.get(fid[0], (0, fid[1]))
+                        rep.known[fid[0]] = (n + 1, fid[1])
+                        continue
                     rep.violation(clause, dict(kind='mpi-trace', clause=clause, line=ln, cfg=o['cfg'], sched_seed=o['sched_seed'], policy=o['policy'],
                                                event=o['mpi']['events'][ln - 1] if 0 < ln <= len(o['mpi']['events']) else None))
             rep.evaluations = rep.traces
@@ -233,9 +238,32 @@ def match_known(known, name, cfg, ser, m):
         if f['property'] != 'C08' or name not in f.get('clauses', []):
             continue
         pred = f.get('predicate')
-        if pred == 'riar_clobber' and riar_clobber(cfg, ser, m):
+        if pred == 'max_restart_scope' and max_restart_scope(cfg, ser, m):
+            return (f['id'], f['text'])
+        if pred == 'rff_collectives' and cfg.get('RFF') and 'collective mismatch' in (str(m.get('failed')) + str(m.get('msg'))):
             return (f['id'], f['text'])
     return None
+
+
+def max_restart_scope(cfg, ser, m):
+    """the runs agree up to a block whose first step has used up its restart budget (restarts_in_a_row >= max_restarts) and is
+    accepted, after which some later step of a block is restarted in one run and not in the other"""
+    maxr = cfg.get('MAXR', 3)
+    a, b = ser.get('steps') or [], m.get('steps') or []
+    key = lambda s: (s['t'], s['dt'], s['niter'], s['restart'], s['riar'], s['slot'])  # noqa
+    a = sorted(a, key=lambda s: (s['t'], s['riar'], s['slot'], s['dt'], s['niter']))
+    b = sorted(b, key=lambda s: (s['t'], s['riar'], s['slot'], s['dt'], s['niter']))
+    # first difference
+    i = 0
+    while i < min(len(a), len(b)) and key(a[i]) == key(b[i]):
+        i += 1
+    if i >= min(len(a), len(b)):
+        return False
+    x, y = a[i], b[i]
+    # same step state, only the restart verdict differs, and a first step at its budget was accepted just before
+    same_state = (x['t'], x['dt'], x['riar']) == (y['t'], y['dt'], y['riar'])
+    budget_first = any(s['slot'] == 0 and s['riar'] >= maxr and not s['restart'] and s['t'] <= x['t'] for s in a[:i + 1] + b[:i + 1])
+    return bool(same_state and x['restart'] != y['restart'] and x['slot'] > 0 and budget_first)
 
 
 def riar_clobber(cfg, ser, m):
